@@ -229,6 +229,8 @@ def one_core(prog, chk):
             n += 1
             if tg.path in FRONTEND_MAY_CALL:
                 chk.ok("A1.one-core", f"{body.short}->{tg.short}", body.where(), f"front-end uses library entry point {tg.short} ({FRONTEND_MAY_CALL[tg.path]})", by="table")
+            elif "svgdx::errors::" in tg.path:
+                chk.ok("A1.one-core", f"{body.short}->{tg.short}", body.where(), "a helper of the error module (builds / converts error values; no processing)")
             elif tg.raw.get("from_macro") or "{closure" in tg.path and front_mod(tg.path):
                 chk.ok("A1.one-core", f"{body.short}->{tg.short}", body.where(), "derive-generated helper")
             else:
